@@ -52,6 +52,9 @@ PredSat(row, name) ==
       [] name = "never"        -> FALSE                                \* lambda a: False
       [] name = "a_truthy"     -> Truthy(row.a)                        \* lambda a: a         (the returned value itself decides)
       [] name = "b_strlen"     -> IsStr(row.b) /\ Pay(row.b) # ""       \* lambda b: len(b) if isinstance(b, str) else 0   (an int, not a bool)
+      [] name = "a_above_1"    -> Gt(row.a, VInt(1))                   \* above(1), where above = lambda k: (lambda a: is_num(a) and a > k): closures of ONE code object
+      [] name = "a_above_2"    -> Gt(row.a, VInt(2))                   \* above(2)
+      [] name = "a_above_0"    -> Gt(row.a, VInt(0))                   \* above(0)
       [] name = "a_is_b"       -> PyIs(row.a, row.b) /\ (IsNone(row.a) \/ IsNaN(row.a)) \* lambda a, b: a is b and (a is None or is_nan(a))
 
 \* a condition is a single predicate or a conjunction of column conditions
